@@ -55,7 +55,7 @@ def extract_constants(c):
     counts = {"corrector_a": len(K["A"]), "corrector_b": len(K["B"]), "corrector2_b": int(K["C2B"] is not None),
               "saba_c_rows": len(K["SC"] or []), "saba_d_rows": len(K["SD"] or []), "saba_cc": len(K["SCC"] or [])}
     c.cov["extracted_constants"] = counts
-    want = {"corrector_a": 8, "corrector_b": 24, "corrector2_b": 1, "saba_c_rows": 10, "saba_d_rows": 10, "saba_cc": 4}
+    want = {"corrector_a": 8, "corrector_b": 19, "corrector2_b": 1, "saba_c_rows": 10, "saba_d_rows": 10, "saba_cc": 4}
     if counts != want:
         c.broken.append("proof obligation: constant extraction found %s, expected %s" % (counts, want))
     return K
@@ -340,8 +340,11 @@ def replay_whfast(c, W, exe, ncases):
             a, b = W.snap(A), W.snap(B)
             # p_jh is uninitialised heap until the first from_inertial; its acceleration members are
             # never written in the heliocentric coordinate systems: compare pos / vel / m of p_jh
+            # (nor the mass member of test particles in barycentric coordinates, transformations.c:611-613)
+            nact = A.N if (A.N_active == -1 or A.testparticle_type == 1) else A.N_active
             for q in (a, b):
-                q["p_jh"] = [x[:48] + x[72:80] for x in q["p_jh"]] if (q["p_jh"] is not None and st.get("pj_defined")) else None
+                q["p_jh"] = [x[:48] + (x[72:80] if i < nact else b"") for i, x in enumerate(q["p_jh"])] \
+                    if (q["p_jh"] is not None and st.get("pj_defined")) else None
             aflags = [A.ri_whfast.is_synchronized, A.ri_whfast.recalculate_coordinates_this_timestep,
                       int(A.ri_whfast._N_allocated == A.N)]
             if a != b or aflags != mflags:
@@ -359,6 +362,218 @@ def replay_whfast(c, W, exe, ncases):
     c.sample({"replay_line": lines[0], "model": out[0][:300]})
 
 
+# ----------------------------------------------------------------------------- search on the real code
+def integrator_configs(rng, thorough):
+    """(label, integrator, setup(mode), has_keep) — mode in 'safe' | 'unsafe' | 'keep'"""
+    cfgs = []
+
+    def wh(coord, kernel, corr, corr2):
+        def mk(mode):
+            return whfast_setup(dict(coord=coord, kernel=kernel, corrector=corr, corrector2=corr2,
+                                     safe=int(mode == "safe"), keep=int(mode == "keep")))
+        return ("whfast c%d k%d corr%d c2=%d" % (coord, kernel, corr, corr2), "whfast", mk, True)
+
+    for coord in range(4):
+        cfgs.append(wh(coord, 0, 0, 0))
+    for corr in (3, 5, 7, 11, 17):
+        cfgs.append(wh(0, 0, corr, 0))
+    cfgs += [wh(3, 0, 11, 0), wh(0, 0, 0, 1), wh(0, 0, 17, 1), wh(0, 1, 0, 0), wh(0, 2, 0, 0), wh(0, 3, 0, 0),
+             wh(0, 1, 5, 0), wh(0, 2, 3, 1), wh(0, 3, 7, 0)]
+
+    def saba(t):
+        def mk(mode):
+            def f(s):
+                s.ri_saba._type = t
+                s.ri_saba.safe_mode = int(mode == "safe")
+                s.ri_saba.keep_unsynchronized = int(mode == "keep")
+            return f
+        return ("saba " + SABA_ROWS[t], "saba", mk, True)
+
+    for t in sorted(SABA_ROWS):
+        cfgs.append(saba(t))
+
+    def merc(mode):
+        def f(s):
+            s.ri_mercurius.safe_mode = int(mode == "safe")
+        return f
+    cfgs.append(("mercurius", "mercurius", merc, False))
+
+    def eos(p0, p1, n):
+        def mk(mode):
+            def f(s):
+                s.ri_eos._phi0 = p0
+                s.ri_eos._phi1 = p1
+                s.ri_eos.n = n
+                s.ri_eos.safe_mode = int(mode == "safe")
+            return f
+        return ("eos phi0=%d phi1=%d n=%d" % (p0, p1, n), "eos", mk, False)
+
+    eo = [(0, 0, 2), (1, 0, 2), (3, 1, 2), (4, 0, 4), (5, 1, 2), (6, 0, 2), (7, 0, 2), (8, 1, 2), (2, 2, 3)]
+    for e in eo:
+        cfgs.append(eos(*e))
+    return cfgs
+
+
+def final_state(W, s, which):
+    d = {"particles": [x[:48] + x[72:80] for x in W.pbytes(s._particles, s.N)], "t": d2h(s.t)}
+    return d
+
+
+def coords(W, s):
+    return [(p.x, p.y, p.z, p.vx, p.vy, p.vz) for p in (s.particles[i] for i in range(s.N))]
+
+
+def interrupt(W, s, kind, tmpdir, allow_sync):
+    lib = W.lib
+    r = ctypes.byref(s)
+    if kind == "sync" and allow_sync:
+        lib.reb_simulation_synchronize(r)
+    elif kind == "sync2" and allow_sync:
+        lib.reb_simulation_synchronize(r)
+        lib.reb_simulation_synchronize(r)
+    elif kind == "energy":
+        lib.reb_simulation_energy(r)
+    elif kind == "angmom":
+        s.angular_momentum()
+    elif kind == "orbits":
+        try:
+            s.orbits()
+        except Exception:
+            pass
+    elif kind == "copy":
+        s.copy()
+    elif kind == "save":
+        fn = os.path.join(tmpdir, "s.bin")
+        if os.path.exists(fn):
+            os.remove(fn)
+        s.save_to_file(fn)
+    elif kind == "com":
+        s.com()
+
+
+KINDS = ["sync", "sync2", "energy", "angmom", "orbits", "copy", "save", "com"]
+
+
+def search(c, W):
+    rng0 = c.rng.fork()
+    cfgs = integrator_configs(rng0, c.thorough)
+    tmpdir = tempfile.mkdtemp(prefix="c09.", dir=os.environ.get("VERIF_TMP", "/tmp"))
+    common._scratch.append(tmpdir)
+    nsys = 3 if c.thorough else 1
+    nsteps_bit = 40 if c.thorough else 20
+    nsteps_phys = 500 if c.thorough else 150
+    worst = {}
+    eos_ratio = {}
+    for label, integ, mk, has_keep in cfgs:
+        for isys in range(nsys):
+            rng = c.rng.fork()
+            system = gen_system(rng)
+            if integ in ("saba",):
+                system["N_active"], system["testparticle_type"] = -1, 0     # SABA transforms with N_active = N
+            if integ == "mercurius":
+                system["particles"] = [p if i == 0 else (p[0] * 0.03,) + p[1:] for i, p in enumerate(system["particles"])]
+            if integ == "eos":
+                system["dt"] *= 0.2          # low-order splittings: stay in the asymptotic regime
+            is_c2 = "c2=1" in label
+            if is_c2:
+                # make the second corrector non-negligible (it is O(eps^2 dt^4)): Jupiter-mass planets
+                system["particles"] = [p if (i == 0 or p[0] == 0.0) else (3e-3,) + p[1:] for i, p in enumerate(system["particles"])]
+            # ---------------- (i) interruptions do not change a bit
+            mode = "keep" if has_keep else "unsafe"
+            for rep in range(3 if c.thorough else 2):
+                A = W.sim(system, integ, mk(mode))
+                B = W.sim(system, integ, mk(mode))
+                plan = []
+                for k in range(nsteps_bit):
+                    W.lib.reb_simulation_step(ctypes.byref(A))
+                    W.lib.reb_simulation_step(ctypes.byref(B))
+                    if rng.chance(0.5):
+                        for _ in range(rng.randint(1, 3)):
+                            kind = rng.choice(KINDS)
+                            if not has_keep and kind in ("sync", "sync2"):
+                                kind = "energy"
+                            plan.append((k, kind))
+                            interrupt(W, B, kind, tmpdir, has_keep)
+                mid = (final_state(W, A, integ), final_state(W, B, integ)) if not has_keep else None
+                W.lib.reb_simulation_synchronize(ctypes.byref(A))
+                W.lib.reb_simulation_synchronize(ctypes.byref(B))
+                fa, fb = final_state(W, A, integ), final_state(W, B, integ)
+                c.count(("bitwise", label, isys, rep), nontrivial=len(plan) > 0)
+                if fa != fb or (mid is not None and mid[0] != mid[1]):
+                    c.violation("interleaving:" + label.split()[0],
+                                "%s (%s): calls %s between steps change the final state (not bit-identical to the uninterrupted run)"
+                                % (label, mode, sorted(set(k for _, k in plan))),
+                                {"integrator": integ, "label": label, "mode": mode, "system": system, "steps": nsteps_bit,
+                                 "interruptions_after_step": plan})
+                    break
+            # ---------------- (iii) synchronize twice = once
+            A = W.sim(system, integ, mk("unsafe"))
+            for k in range(5):
+                W.lib.reb_simulation_step(ctypes.byref(A))
+            W.lib.reb_simulation_synchronize(ctypes.byref(A))
+            f1 = final_state(W, A, integ)
+            W.lib.reb_simulation_synchronize(ctypes.byref(A))
+            f2 = final_state(W, A, integ)
+            c.count(("sync2", label, isys))
+            ok3 = f1 == f2
+            if has_keep and ok3:
+                A = W.sim(system, integ, mk("keep"))
+                for k in range(5):
+                    W.lib.reb_simulation_step(ctypes.byref(A))
+                W.lib.reb_simulation_synchronize(ctypes.byref(A))
+                f1 = final_state(W, A, integ)
+                W.lib.reb_simulation_synchronize(ctypes.byref(A))
+                ok3 = f1 == final_state(W, A, integ)
+            if not ok3:
+                c.violation("sync-twice:" + label.split()[0], "%s: synchronize twice differs from synchronize once" % label,
+                            {"integrator": integ, "label": label, "system": system, "steps": 5})
+            # ---------------- (ii) safe vs unsafe
+            A = W.sim(system, integ, mk("safe"))
+            B = W.sim(system, integ, mk("unsafe"))
+            syncs = []
+            for k in range(nsteps_phys):
+                W.lib.reb_simulation_step(ctypes.byref(A))
+                W.lib.reb_simulation_step(ctypes.byref(B))
+                if rng.chance(0.03):
+                    W.lib.reb_simulation_synchronize(ctypes.byref(B))
+                    syncs.append(k)
+            W.lib.reb_simulation_synchronize(ctypes.byref(B))
+            ca, cb = coords(W, A), coords(W, B)
+            scale_x = max(abs(v) for p in ca for v in p[:3])
+            scale_v = max(abs(v) for p in ca for v in p[3:])
+            err = max(max(abs(a[k] - b[k]) / (scale_x if k < 3 else scale_v) for k in range(6)) for a, b in zip(ca, cb))
+            c.count(("phys", label, isys))
+            fam = label.split()[0]
+            if integ != "eos":
+                worst[fam] = max(worst.get(fam, 0.0), err)
+                worst[label] = max(worst.get(label, 0.0), err)
+                if not err <= 1e-10:
+                    c.violation("F18:whfast-corrector2-not-inverse" if is_c2 else "safe-unsafe:" + fam, "%s: unsafe mode + final synchronize differs from safe mode by %.3g relative after %d steps"
+                                % (label, err, nsteps_phys),
+                                {"integrator": integ, "label": label, "system": system, "steps": nsteps_phys,
+                                 "intermediate_syncs_after_step": syncs, "relative_difference": err})
+            else:
+                # the scheme's own truncation error at this dt: safe mode at dt vs dt/2
+                h = dict(system)
+                h["dt"] = system["dt"] / 2
+                Hs = W.sim(h, integ, mk("safe"))
+                for k in range(2 * nsteps_phys):
+                    W.lib.reb_simulation_step(ctypes.byref(Hs))
+                ch = coords(W, Hs)
+                trunc = max(max(abs(a[k] - b[k]) / (scale_x if k < 3 else scale_v) for k in range(6)) for a, b in zip(ca, ch))
+                ratio = err / max(trunc, 1e-13)
+                eos_ratio[label] = max(eos_ratio.get(label, 0.0), ratio)
+                worst[label] = max(worst.get(label, 0.0), err)
+                if not err <= 10 * max(trunc, 1e-13):
+                    c.violation("safe-unsafe:eos", "%s: unsafe+synchronize differs from safe mode by %.3g, more than 10x the scheme's truncation error %.3g"
+                                % (label, err, trunc),
+                                {"integrator": integ, "label": label, "system": system, "steps": nsteps_phys,
+                                 "intermediate_syncs_after_step": syncs, "relative_difference": err, "truncation_error": trunc})
+    c.cov["safe_vs_unsafe_worst_relative_difference"] = {k: float("%.3g" % v) for k, v in sorted(worst.items())}
+    c.cov["eos_difference_over_truncation_error"] = {k: float("%.3g" % v) for k, v in sorted(eos_ratio.items())}
+    c.cov["search_configurations"] = len(cfgs)
+
+
 def run(c):
     d = build()
     rebound = use_scratch_rebound(d)
@@ -366,7 +581,22 @@ def run(c):
     W = World(rebound, K)
     c.prove(["RV.Props.C09"])
     exe = lean_exe("drv_c09")
+    c.cov["rule"] = ("replay: random points of the WHFast option lattice (4 coordinate systems x 4 kernels x 6 corrector orders x corrector2 x "
+                     "safe/unsafe/keep_unsynchronized, star + 1-4 planets + 0-2 test particles, N_active / testparticle_type varied) x random "
+                     "sequences of step / synchronize / read / set-recalculate-flag / modify-particle; after every op particles, p_jh, t and flags "
+                     "of the primitive-by-primitive execution of the model's list are compared bitwise with reb_simulation_step/synchronize. "
+                     "search: per integrator configuration (i) random read-only / synchronize calls between steps vs uninterrupted run, bitwise; "
+                     "(ii) safe vs unsafe + random synchronisations, relative difference; (iii) synchronize twice vs once, bitwise. "
+                     "distinct_nontrivial = distinct (kind, configuration, op/system) with at least one step or interruption")
+    c.cov["trusted_base"] = ["Lean 4.33 kernel", "footprint table of the primitives (types of RV.Sync.Sem), tested by perturbation",
+                             "schedule replay drv_c09 vs compiled integrator (differential test on generated inputs)",
+                             "ctypes layout of reb_simulation / reb_particle (checked by C18)"]
+    c.assumptions += ["the floating-point primitives (Kepler solver, transformations, gravity) are uninterpreted in the theorems",
+                      "physics theorems assume exact group laws of the primitives (true in exact arithmetic, to rounding in IEEE)",
+                      "WHFast512 is not compiled on this host (no AVX512): not covered",
+                      "variational particles / MEGNO, additional forces, collisions are outside the model"]
     replay_whfast(c, W, exe, 400 if c.thorough else 60)
+    search(c, W)
 
 
 if __name__ == "__main__":
